@@ -213,6 +213,10 @@ func c17Scenarios() []c17Scenario {
 		{"request-by-route", cfg, func() []c17Step {
 			return []c17Step{{ua, lst, req("OPTIONS", "sip:x@foreign.example.net", "1", "", []string{"<sip:proxy.example.com:5060;lr>, <sip:o'brien@127.0.2.1:5070;lr>", "<sip:127.0.2.2;lr>;p=1, \"N\" <sip:10.3.3.3;lr>"}), true, 0}}
 		}},
+		// a route set that begins with TWO entries for this listener (a dialog set up by a spiralled request)
+		{"request-by-route-own-twice", cfg, func() []c17Step {
+			return []c17Step{{ua, lst, req("OPTIONS", "sip:x@foreign.example.net", "1", "", []string{"<sip:proxy.example.com:5060;lr>, <sip:127.0.0.1:5060;lr>, <sip:o'brien@127.0.2.1:5070;lr>", "<sip:127.0.2.2;lr>;p=1"}), true, 0}}
+		}},
 		{"request-by-static-route", cfg, func() []c17Step {
 			m := req("OPTIONS", "sip:x@foreign.example.net", "1", "", nil)
 			for i := range m.Hdrs {
@@ -497,7 +501,7 @@ func c17RunAll(c *Ctx) {
 
 func init() {
 	addCheck(&Check{ID: "C17", Level: "exploration",
-		Rule: "metamorphic: every canonical call flow (zz_flows.go) with two Via values on separate lines against the same flow with the values comma-joined (step by step the same destinations); and 11 scenarios (request to backend over UDP and TCP, by Route, by static route, response by Via, pin by INVITE response, in-dialog request, pin lifetime by Expires, NOTIFY terminated, SUBSCRIBE response pinning) x every variant of the subject message with ONE header name respelled (compact where it exists, upper, lower, alternating case, upper-case compact; all headers incl. Content-Length, CSeq, Call-ID, Expires, Subscription-State, Record-Route; thorough: every PAIR of simultaneous respellings), with only ONE line of a multi-line Via/Route/Record-Route respelled (independent respelling) and every re-layout (all compositions, with/without blank after comma) of the Via / Route / Record-Route lists; base and variant run on identically prepared worlds and must agree on every destination of every step (incl. the follow-up in-dialog probes = pinning decision), decoded Via/Route/Record-Route stacks, remaining fields modulo the respelled names, single Content-Length and body; non-trivial = subject relayed in the base run",
+		Rule: "metamorphic: every canonical call flow (zz_flows.go) with two Via values on separate lines against the same flow with the values comma-joined (step by step the same destinations); and 12 scenarios (request to backend over UDP and TCP, by Route, by a Route set that names the listener twice, by static route, response by Via, pin by INVITE response, in-dialog request, pin lifetime by Expires, NOTIFY terminated, SUBSCRIBE response pinning) x every variant of the subject message with ONE header name respelled (compact where it exists, upper, lower, alternating case, upper-case compact; all headers incl. Content-Length, CSeq, Call-ID, Expires, Subscription-State, Record-Route; thorough: every PAIR of simultaneous respellings), with only ONE line of a multi-line Via/Route/Record-Route respelled (independent respelling) and every re-layout (all compositions, with/without blank after comma) of the Via / Route / Record-Route lists; base and variant run on identically prepared worlds and must agree on every destination of every step (incl. the follow-up in-dialog probes = pinning decision), decoded Via/Route/Record-Route stacks, remaining fields modulo the respelled names, single Content-Length and body; non-trivial = subject relayed in the base run",
 		Run: func(c *Ctx) {
 			c17RunAll(c)
 			RunFlowLayoutPairs(c)
